@@ -1170,6 +1170,10 @@ class Ex:
             v = self.call(fn, list(args), dict(kwargs or {}))
             return ("return", v)
         except PyRaise as e:
+            if getattr(e.exc, "tag", None) == "signature" and getattr(e.exc, "at_depth", 1) == 0:
+                # the unit passes arguments the (private) function's signature no longer accepts: the contract does not
+                # fit the code any more - undecided, not a behaviour of the code
+                raise Unsupported(f"the contract calls the function with arguments its signature does not accept ({e.exc.args[0] if e.exc.args else ''})")
             return ("raise", e.exc)
 
     def _native_call(self, fn, args, kwargs):
@@ -1233,6 +1237,7 @@ class Ex:
     def raise_(self, cls, *args, tag=None):
         e = ExcVal(cls, args)
         e.tag = tag
+        e.at_depth = self.depth
         raise PyRaise(e)
 
     # binding ---------------------------------------------------------------
@@ -1258,7 +1263,7 @@ class Ex:
         args = list(args)
         kwargs = dict(kwargs)
         if len(args) > len(params) and not a.vararg:
-            self.raise_(TypeError, f"{fi.qualname}() takes {len(params)} positional arguments but {len(args)} were given")
+            self.raise_(TypeError, f"{fi.qualname}() takes {len(params)} positional arguments but {len(args)} were given", tag="signature")
         for p, v in zip(params, args):
             loc[p] = v
         if a.vararg:
@@ -1267,7 +1272,7 @@ class Ex:
         for i, p in enumerate(params):
             if p in loc:
                 if p in kwargs:
-                    self.raise_(TypeError, f"multiple values for argument {p}")
+                    self.raise_(TypeError, f"multiple values for argument {p}", tag="signature")
                 continue
             if p in kwargs:
                 loc[p] = kwargs.pop(p)
@@ -1276,18 +1281,18 @@ class Ex:
                 if di >= 0:
                     loc[p] = defaults[di]
                 else:
-                    self.raise_(TypeError, f"{fi.qualname}() missing required argument {p}")
+                    self.raise_(TypeError, f"{fi.qualname}() missing required argument {p}", tag="signature")
         for arg in a.kwonlyargs:
             if arg.arg in kwargs:
                 loc[arg.arg] = kwargs.pop(arg.arg)
             elif arg.arg in kwdefaults:
                 loc[arg.arg] = kwdefaults[arg.arg]
             else:
-                self.raise_(TypeError, f"missing keyword-only argument {arg.arg}")
+                self.raise_(TypeError, f"missing keyword-only argument {arg.arg}", tag="signature")
         if a.kwarg:
             loc[a.kwarg.arg] = dict(kwargs)
         elif kwargs:
-            self.raise_(TypeError, f"{fi.qualname}() got an unexpected keyword argument {sorted(kwargs)[0]!r}")
+            self.raise_(TypeError, f"{fi.qualname}() got an unexpected keyword argument {sorted(kwargs)[0]!r}", tag="signature")
         return loc, module
 
     def is_generator(self, fi: FuncInfo):
@@ -2186,7 +2191,38 @@ class Ex:
     def ev_Lambda(self, e, fr):
         return LambdaVal(e, fr)
 
+    @staticmethod
+    def _scalar(v):
+        """values whose merge loses nothing the executor relies on (a list keeps its concrete spine only on separate paths)"""
+        if is_sym(v):
+            k = v.ty.kind
+            return k in ("bool", "int", "str", "num", "enum", "ienum") or (k == "opt" and v.ty.inner.kind in ("bool", "int", "str", "num", "enum", "ienum"))
+        return v is None or isinstance(v, (bool, int, str, float))
+
+    def _speculate(self, fn):
+        """run fn without forking or writing; _NO_MERGE when that is not possible"""
+        self.nofork += 1
+        try:
+            return fn()
+        except (_WouldFork, PyRaise, Unsupported, _NoMerge):
+            return _NO_MERGE
+        finally:
+            self.nofork -= 1
+
     def ev_IfExp(self, e, fr):
+        if _call_free(e) and not self.nofork:
+            # both arms are call-free: one merged value instead of two paths (when the arms have one Python type)
+            def merged():
+                c = self.eval_cond(e.test, fr)
+                if isinstance(c, bool):
+                    raise _NoMerge()
+                a, b = self.eval(e.body, fr), self.eval(e.orelse, fr)
+                if not (self._scalar(a) and self._scalar(b)):
+                    raise _NoMerge()
+                return _merge_values(c, a, b)
+            v = self._speculate(merged)
+            if v is not _NO_MERGE:
+                return v
         if self.branch(self.eval_cond(e.test, fr), "ifexp"):
             return self.eval(e.body, fr)
         return self.eval(e.orelse, fr)
@@ -2241,6 +2277,29 @@ class Ex:
 
     def ev_BoolOp(self, e, fr):
         is_and = isinstance(e.op, ast.And)
+        if _call_free(e) and not self.nofork:
+            # `a and b` is `b if a else a`: merged when every operand is call-free and the operands have one Python type
+            def merged():
+                vals = []
+                for x in e.values:
+                    a = self.eval(x, fr)
+                    vals.append(a)
+                    t = self.truthy(a)
+                    if isinstance(t, bool) and t != is_and:
+                        break               # a concrete short-circuit: the remaining operands are never evaluated
+                if not all(self._scalar(x) for x in vals):
+                    raise _NoMerge()
+                v = vals[-1]
+                for a in reversed(vals[:-1]):
+                    t = self.truthy(a)
+                    if isinstance(t, bool):
+                        v = (v if t else a) if is_and else (a if t else v)
+                    else:
+                        v = _merge_values(t, v, a) if is_and else _merge_values(t, a, v)
+                return v
+            v = self._speculate(merged)
+            if v is not _NO_MERGE:
+                return v
         v = None
         for i, x in enumerate(e.values):
             v = self.eval(x, fr)
